@@ -296,6 +296,19 @@ func (e *Engine) scanDirectives() error {
 			if !e.overlayFiles[fname] {
 				continue
 			}
+			for _, cg := range f.Comments {
+				for _, c := range cg.List {
+					txt := strings.TrimSpace(strings.TrimPrefix(c.Text, "//"))
+					if strings.HasPrefix(txt, "verif:opaque ") {
+						target := strings.TrimSpace(strings.TrimPrefix(txt, "verif:opaque "))
+						if tf := e.funcByName(target); tf != nil {
+							e.opaqueFns[tf] = true
+							e.intrByFn[tf] = intrOpaque
+							e.StubsUsed[target] = "opaque"
+						}
+					}
+				}
+			}
 			for _, d := range f.Decls {
 				fd, ok := d.(*ast.FuncDecl)
 				if !ok || fd.Doc == nil {
